@@ -13,6 +13,7 @@ import base64
 import io
 import re
 
+from ref import cookies as RC
 from ref import redirect as R
 from sim.net import SimResolver
 from sim.peers import RawServerConn, parse_simple_request
@@ -26,14 +27,15 @@ BATCH = 400
 ENUM_BATCH = 60
 ENUM_SHARE = 0.4
 ENUM_RULE = (
-    "735 fixed cases run before the seeded search: {301,302,303,307,308} x {GET,HEAD,DELETE; POST,PUT,PATCH x body "
+    "755 fixed cases run before the seeded search: {301,302,303,307,308} x {GET,HEAD,DELETE; POST,PUT,PATCH x body "
     "none/bytes/form/one-shot generator/file/unseekable file} x redirect target {same origin, other port, other "
     "scheme, subdomain, other host} with every caller secret and a four-cookie jar; other home origins; URL "
     "credentials and credentials in the Location; A->X->A and A->X->X->A for every X and status; chains of "
     "{0,1,m-1,m,m+1} redirects against max_redirects m in {1,2,3,10}; every non-HTTP / invalid / missing Location "
     "spelling; one redirect A->X with URL credentials / Location credentials / session default headers / request "
-    "headers followed by later calls on the same session to every origin of the run.  Not exhaustive of the "
-    "property's input space."
+    "headers followed by later calls on the same session to every origin of the run; for every ordered pair "
+    "of origins X != Y the chain X -> X -> Y -> X whose first response sets a host-only, a Domain=, a Secure and a "
+    "path-scoped cookie.  Not exhaustive of the property's input space."
 )
 TECHNIQUE = ("deterministic simulation: real ClientSession on a virtual-time loop against scripted in-memory origin "
              "servers; per-request oracle from an executable statement of the documented redirect rules; seeded "
@@ -43,12 +45,15 @@ LEVEL_TEXT = (
     "all caller secrets set) and of the A->X->A and at-the-limit shapes, then seeded exploration of redirect chains "
     "(0-12 hops over 2-4 origins, Location forms, credentials, cookie jar contents, Set-Cookie along the chain) "
     "and, in a sampled share, later calls on the same session against the real client; every request an origin "
-    "receives is judged against ref/redirect.py and the jar's own "
-    "selection for that hop.  Sampling beyond the enumerated cases, not proof."
+    "receives is judged against ref/redirect.py, against the jar's own selection for that hop and against the "
+    "selection an RFC 6265 reference store (ref/cookies.py), fed with the same preload and the same Set-Cookie "
+    "lines, makes for that hop's URL.  Sampling beyond the enumerated cases, not proof."
 )
 LEVEL_NOTE = (
-    "Trusted: ref/redirect.py (documented table and credential rule), the scripted origins, SimNet's TCP model, and "
-    "CookieJar.filter_cookies as the definition of 'what the jar selects' (RFC scoping itself is C16). TLS is not "
+    "Trusted: ref/redirect.py (documented table and credential rule), ref/cookies.py (RFC 6265 5.3/5.4 with "
+    "aiohttp's documented deviations; which of the chain's cookies may go to which hop - the cookie grammar, dates "
+    "and jar management are C16's), the scripted origins, SimNet's TCP model. CookieJar.filter_cookies at the "
+    "instant a request arrives is a second, white-box statement of 'what the jar selects'. TLS is not "
     "simulated: https origins are plaintext listeners on port 443. 'Nothing left acquired' is a white-box cross-check "
     "on TCPConnector._acquired; the black-box counterpart is that chains complete with limit=1. max_redirects is "
     "read as 'at most max_redirects requests' (property statement, test-suite); max_redirects=0 (undocumented: "
@@ -492,6 +497,25 @@ def enumerate_cases(tier, seed):
                 yield s
 
 
+    # 8. jar scope along a chain: the first response sets cookies of every scope, the next hop (same origin)
+    #    has them selected once, then the chain goes to another origin and comes back
+    for x in ("A", "AP", "AS", "SUB", "B"):
+        for y in ("A", "AP", "AS", "SUB", "B"):
+            if x == y:
+                continue
+            s = _simple(x, x, 302, "GET", "none", loc_kind="rel", secrets=False, jar=False)
+            hops = s["hops"]
+            hops[0]["setc"] = ["s0=v00; Path=/", f"sd0=d00; Domain={_parent(ORIGINS[x][1])}; Path=/",
+                               "ss0=x00; Secure; Path=/", "sp0=p00; Path=/h2", "sn0=n00"]
+            hops[1].update(status=307, loc="abs", loc_str=f"{_base(y)}/h2")
+            hops.append({"o": y, "target": "/h2", "setc": ["s2=v20; Path=/"], "rbody": 2, "framing": "cl", "status": 303,
+                         "loc": "abs", "loc_str": f"{_base(x)}/h3"})
+            hops.append({"o": x, "target": "/h3", "setc": [], "rbody": 2, "framing": "cl", "status": 200, "loc": None,
+                         "loc_str": None})
+            s["origins"] = [x, y]
+            yield s
+
+
 def shrink(scn):
     fus = scn.get("followups") or []
     if fus:
@@ -552,6 +576,106 @@ def shrink(scn):
         yield dict(scn, conn={"limit": 100, "limit_per_host": 0, "force_close": False})
 
 
+# --------------------------------------------------------------------------- independent jar model
+
+_WALL0 = 1_700_000_000.0
+
+
+class _RfcJar:
+    """What RFC 6265 5.3/5.4 (ref/cookies.py, written from the RFC text and aiohttp's documented
+    deviations) stores and selects, fed with exactly what the real jar is fed with: the preloaded
+    cookies and every Set-Cookie an origin sends.  A response that an origin cut short is applied
+    only once it is known that the client saw its head (a later hop was requested); a response
+    the client may never have looked at leaves the model `pending` / unknown."""
+
+    def __init__(self, loop, pre):
+        self.loop = loop
+        self.store = RC.Store(RC.Config(reserved_names_refused=True))
+        self.pending = None  # (hop, origin name, target, [Set-Cookie]) of a response cut short
+        # tags of session cookies stored by a response that had deleted (Max-Age=0) the same
+        # (name, domain, path) in an earlier Set-Cookie line of its own: known finding C17-F2
+        self.redone = set()
+        for c in pre:
+            attrs = []
+            if c.get("domain"):
+                attrs.append(("domain", c["domain"].lower()))
+            if c.get("path"):
+                attrs.append(("path", c["path"]))
+            if c.get("secure"):
+                attrs.append(("secure", True))
+            if c["url"] is None:
+                self.store.set_cookie(c["name"], c["value"], attrs, None, "/", self.now())
+            else:
+                m = re.match(r"^[a-z]+://([^/:]+)(?::\d+)?(/[^?#]*)?", c["url"])
+                self.store.set_cookie(c["name"], c["value"], attrs, m.group(1), m.group(2) or "/", self.now())
+
+    def now(self):
+        return _WALL0 + self.loop.time()
+
+    @staticmethod
+    def _path(target):
+        return target.split("#", 1)[0].split("?", 1)[0] or "/"
+
+    def probe(self, name, target):
+        """{"sel": name -> [values the RFC sends to this URL], "why": (name, value) -> first failing test}"""
+        s, h, p, _ = ORIGINS[name]
+        path = self._path(target)
+        st = self.store
+        sel = {}
+        redone = set()
+        for c in st.select(s, h, p, path, self.now()):
+            sel.setdefault(c.name, []).append(c.value)
+            if c.tag in self.redone:
+                redone.add(c.name)
+        sec = st.is_secure_channel(s, h, p)
+        why = {}
+        for c in st.live():
+            wn = st.why_not(c, RC.canonical_host(h), path, sec)
+            if wn is not None:
+                why.setdefault((c.name, c.value), wn)
+        return {"sel": sel, "why": why, "redone": redone}
+
+    def apply(self, name, target, setc):
+        host = ORIGINS[name][1]
+        deleted = set()
+        for i, hdr in enumerate(setc):
+            tag = f"{name}{target}#{i}"
+            self.redone.discard(tag)
+            c = self.store.set_from_header(hdr, host, self._path(target), self.now(), tag=tag)
+            if c is not None and c.expiry == -RC.INF:
+                deleted.add(c.key())
+            elif c is not None and not c.persistent and c.key() in deleted:
+                self.redone.add(tag)
+
+    def on_request(self, hop):
+        """A request for `hop` arrived: settle a response that was cut short earlier."""
+        if self.pending is not None and hop is not None:
+            ph, name, target, setc = self.pending
+            if hop > ph:
+                self.apply(name, target, setc)  # the client followed it, so it had the head
+                self.pending = None
+            elif hop == ph:
+                self.pending = None  # asked again: the head never arrived
+
+
+def _rfc_judge(got_jar, rfc):
+    """(class key or None, missing names, extra names) of a Cookie header against the RFC selection."""
+    sel, why = rfc["sel"], rfc["why"]
+    extra = sorted(n for n, v in got_jar.items() if v not in sel.get(n, ()))
+    missing = sorted(n for n in sel if n not in got_jar)
+    if extra:
+        n = extra[0]
+        cls = "extra:" + (why.get((n, got_jar[n])) or ("stale_value" if n in sel else "not_in_store"))
+    elif missing:
+        cls = "missing"
+        if all(n in rfc["redone"] for n in missing):
+            # one response deletes the cookie (Max-Age=0) and then sets it again as a session cookie
+            return "missing:set_again_after_max_age_0_in_one_response", missing, extra
+    else:
+        cls = None
+    return cls, missing, extra
+
+
 # --------------------------------------------------------------------------- origins
 
 _HOP_RE = re.compile(r"^/h(\d+)(\?.*)?$")
@@ -561,8 +685,9 @@ _FU_RE = re.compile(r"^/([fg])(\d+)$")
 class Origins:
     """All scripted origin servers of a run; one shared, ordered request log."""
 
-    def __init__(self, loop, net, scn, jar_probe):
+    def __init__(self, loop, net, scn, jar_probe, rfc=None):
         self.loop = loop
+        self.rfc = rfc
         self.net = net
         self.hops = scn["hops"]
         self.faults = {f["hop"]: f["kind"] for f in scn["faults"] if f["kind"] != "cancel"}
@@ -587,10 +712,14 @@ class Origins:
         hop = int(m.group(1)) if m else None
         att = self.attempts.get(hop, 0)
         self.attempts[hop] = att + 1
+        rfc = self.rfc
+        if rfc is not None:
+            rfc.on_request(hop)
         rec = {
             "seq": len(self.log), "origin": name, "conn": conn.conn_id, "method": req["method"].decode("latin-1"),
             "target": target, "headers": [(a.decode("latin-1"), b.decode("latin-1")) for a, b in req["headers"]],
             "body": req["body"], "hop": hop, "attempt": att, "jar": self.jar_probe(name, target),
+            "rfc": rfc.probe(name, target) if rfc is not None else None,
         }
         self.log.append(rec)
         self.loop.note("origin_rx", f"{name}:{rec['method']}:{target}")
@@ -609,9 +738,13 @@ class Origins:
             return
         if fault == "reset_mid":
             self.loop.faults["origin_reset_mid"] += 1
+            if rfc is not None:
+                rfc.pending = (hop, name, target, list(self.hops[hop]["setc"]))
             conn.send(data[:max(1, len(data) // 2)])
             self.loop.sim_call_later(0.001, self.net.kill, conn.transport, "reset")
             return
+        if rfc is not None:
+            rfc.apply(name, target, self.hops[hop]["setc"])
         conn.send(data)
         if close:
             conn.transport.close()
@@ -623,6 +756,7 @@ class Origins:
             "call": i, "pos": pos, "origin": name, "method": req["method"].decode("latin-1"), "target": target,
             "headers": [(a.decode("latin-1"), b.decode("latin-1")) for a, b in req["headers"]],
             "body": req["body"], "jar": self.jar_probe(name, target),
+            "rfc": self.rfc.probe(name, target) if self.rfc is not None else None,
         })
         self.loop.note("origin_rx", f"{name}:{req['method'].decode('latin-1')}:{target}")
         loc = _fu_loc(fu, i) if pos == 0 else None
@@ -863,7 +997,9 @@ def run(scn, ch, log=False):
                 return {"!error": repr(e)}
             return {k: sel[k].value for k in sorted(sel)}
 
-        origins = Origins(loop, net, scn, jar_probe)
+        # the independent statement of what a jar fed with the same cookies sends where (RFC 6265)
+        rfc = _RfcJar(loop, scn["jar"]["pre"]) if scn["jar"]["kind"] != "dummy" else None
+        origins = Origins(loop, net, scn, jar_probe, rfc)
 
         # ---- the call
         data, exp_body0 = _make_data(init["body"])
@@ -1120,6 +1256,20 @@ def run(scn, ch, log=False):
                         f"{want} for that URL (missing {missing}, extra {extra}); {init_desc}")
             if ncookie_hdrs > 1:
                 violate("jar_reselection", "several_cookie_headers", f"hop {hop} has {ncookie_hdrs} Cookie header lines; {init_desc}")
+            # --- ... and that selection is the one RFC 6265 makes for this hop's URL from the cookies the
+            # jar was given (preload + every Set-Cookie of the chain so far), whatever was selected before
+            if r["rfc"] is not None:
+                cls, missing, extra = _rfc_judge(got_jar, r["rfc"])
+                if cls is not None:
+                    where = "first_hop" if hop == 0 else ("same_origin_hop" if travelled[hop] == travelled[hop - 1] else
+                                                          "same_host_hop" if ORIGINS[hops[hop]["o"]][1] == ORIGINS[hops[hop - 1]["o"]][1]
+                                                          else "cross_host_hop")
+                    violate("jar_scope_per_hop", f"{cls}:{where}",
+                            f"hop {hop} at {r['origin']} ({_base(r['origin'])}{r['target']}): Cookie header carries "
+                            f"{got_jar}; RFC 6265 selects {r['rfc']['sel']} from the cookies the jar holds (missing "
+                            f"{missing}, extra {extra}: {[r['rfc']['why'].get((n, got_jar[n]), 'no such cookie stored') for n in extra]}); "
+                            f"jar preload {[(c['name'], c.get('url'), c.get('domain'), c.get('path')) for c in scn['jar']['pre']]}; "
+                            f"earlier hops at {[hops[j]['o'] for j in range(hop)]}; {init_desc}")
             if exp is None:
                 continue
             # --- method and body per the table
@@ -1264,6 +1414,9 @@ def run(scn, ch, log=False):
                 for tok in _loc_cred(j):
                     earlier[tok] = ("location_credentials", hops[j + 1]["o"])
         defaults = (T_AUTH, T_HC[0], T_HC[1], T_PA) if via_session else ()
+        # a response the first call never got to look at (cut short, or the caller was cancelled) may or may
+        # not be in the jar: the model is only consulted for later calls when that cannot have happened
+        rfc_settled = rfc is not None and rfc.pending is None and not loop.faults.get("cancel_caller")
         for i, fr in enumerate(fu_res):
             fu = fus[i]
             red = fu["red"]
@@ -1337,6 +1490,13 @@ def run(scn, ch, log=False):
                             f"for that URL; {fdesc}")
                 if ncookie_hdrs > 1:
                     violate("jar_reselection", "several_cookie_headers", f"{r['target']} has {ncookie_hdrs} Cookie header lines; {fdesc}")
+                if r["rfc"] is not None and rfc_settled:
+                    cls, missing, extra = _rfc_judge(got_jar, r["rfc"])
+                    if cls is not None:
+                        violate("jar_scope_per_hop", f"{cls}:later_call",
+                                f"{r['target']} at {r['origin']}: Cookie header carries {got_jar}; RFC 6265 selects "
+                                f"{r['rfc']['sel']} from the cookies the jar holds (missing {missing}, extra {extra}: "
+                                f"{[r['rfc']['why'].get((n, got_jar[n]), 'no such cookie stored') for n in extra]}); {fdesc}")
             if fr["blocked"]:
                 violate("terminates", "later_call_blocked", f"the call did not complete; {len(frecs)} requests received; {fdesc}")
             else:
@@ -1421,6 +1581,31 @@ def run(scn, ch, log=False):
 
 def oracle_selftest():
     R.oracle_selftest()
+    RC.oracle_selftest()
+
+    class _L:
+        def time(self):
+            return 0.0
+    j = _RfcJar(_L(), [{"name": "jhome", "value": "JH", "url": "http://a.test/"},
+                       {"name": "jdom", "value": "JD", "url": "http://a.test/", "domain": "a.test"},
+                       {"name": "jsec", "value": "JS", "url": "https://a.test/", "secure": True},
+                       {"name": "jshared", "value": "JX", "url": None}])
+    assert j.probe("A", "/h0?q=1")["sel"] == {"jhome": ["JH"], "jdom": ["JD"], "jshared": ["JX"]}
+    assert j.probe("AS", "/h0")["sel"] == {"jhome": ["JH"], "jdom": ["JD"], "jsec": ["JS"], "jshared": ["JX"]}
+    p = j.probe("SUB", "/h1")
+    assert p["sel"] == {"jdom": ["JD"], "jshared": ["JX"]} and p["why"][("jhome", "JH")] == "host_only_to_subdomain"
+    assert j.probe("B", "/h1")["sel"] == {"jshared": ["JX"]}
+    assert _rfc_judge({"jdom": "JD", "jshared": "JX", "jhome": "JH"}, p)[0] == "extra:host_only_to_subdomain"
+    assert _rfc_judge({"jdom": "JD"}, p)[0] == "missing" and _rfc_judge({"jdom": "JD", "jshared": "JX"}, p)[0] is None
+    j.apply("SUB", "/h1", ["sp=1; Path=/h3", "jdom=X; Domain=b.test", "jhome=gone; Max-Age=0; Path=/", "jhome=N; Path=/"])
+    assert j.probe("SUB", "/h3")["sel"] == {"sp": ["1"], "jhome": ["N"], "jdom": ["JD"], "jshared": ["JX"]}
+    assert j.probe("SUB", "/h3")["redone"] == {"jhome"} and j.probe("A", "/h3")["sel"]["jhome"] == ["JH"]
+    j.pending = (2, "A", "/h2", ["late=1"])
+    j.on_request(2)
+    assert j.pending is None and "late" not in j.probe("A", "/h2")["sel"]
+    j.pending = (2, "A", "/h2", ["late=1"])
+    j.on_request(3)
+    assert j.pending is None and j.probe("A", "/h2")["sel"]["late"] == ["1"]
     # the harness' own helpers
     rec = {"target": "/h1", "headers": [("Authorization", "Basic " + base64.b64encode(b"cu:SECRETPW0").decode()),
                                         ("Cookie", "a=1; b=2"), ("cookie", "c=3")]}
